@@ -13,6 +13,7 @@ pub struct Ctx {
     pub attr_heavy: bool,       // C13 focus
     pub salts: bool,
     pub insts: u64, // instantiate messages generated so far (bounded: classic addresses are pre-bound)
+    pub staking: bool, // staking / distribution messages and queries are generated
 }
 
 pub const USERS: &[&str] = &["u1", "u2", "u3"];
@@ -93,7 +94,27 @@ fn ev_ty(rng: &mut Rng, ctx: &Ctx) -> String {
     }
 }
 
+pub fn gen_stk_msg(rng: &mut Rng, ctx: &Ctx) -> String {
+    let v = |rng: &mut Rng| if rng.chance(1, 12) { "v9".to_string() } else { rng.pick(&["v1", "v1", "v2"]).to_string() };
+    let amt = |rng: &mut Rng| match rng.below(20) {
+        0 => "0:d1".to_string(),
+        1 => format!("{}:d2", rng.range(1, 3)),
+        2 => "500:d1".to_string(),
+        _ => format!("{}:d1", rng.range(1, 4)),
+    };
+    match rng.below(100) {
+        0..=39 => format!("(deleg {} {})", v(rng), amt(rng)),
+        40..=59 => format!("(undeleg {} {})", v(rng), amt(rng)),
+        60..=71 => format!("(redeleg {} {} {})", v(rng), v(rng), amt(rng)),
+        72..=89 => format!("(withdraw {})", v(rng)),
+        _ => format!("(setwd {})", some_addr(rng, ctx)),
+    }
+}
+
 pub fn gen_msg(rng: &mut Rng, ctx: &mut Ctx, depth: u32) -> String {
+    if ctx.staking && rng.chance(1, 4) {
+        return gen_stk_msg(rng, ctx);
+    }
     let r = rng.below(100);
     if r < 58 {
         let c = contract(rng, ctx);
@@ -186,7 +207,10 @@ pub fn gen_script(rng: &mut Rng, ctx: &mut Ctx, depth: u32, is_reply: bool) -> S
         } else if r < 57 {
             acts.push(format!("(data {})", rng.pick(&["-", "01", "aabb", "0a02cc"])));
         } else if r < 68 {
-            let q = match rng.below(8) {
+            let q = match if ctx.staking { rng.below(11) } else { rng.below(8) } {
+                8 => format!("(qdeleg {} {})", some_addr(rng, ctx), rng.pick(&["v1", "v2", "v9"])),
+                9 => format!("(qalldeleg {})", some_addr(rng, ctx)),
+                10 => "(qbonded)".to_string(),
                 0 => format!("(qbal {} {})", some_addr(rng, ctx), rng.pick(DENOMS)),
                 1 => format!("(qall {})", some_addr(rng, ctx)),
                 2 => format!("(qsup {})", rng.pick(DENOMS)),
@@ -314,6 +338,7 @@ pub fn gen_wasm(rng: &mut Rng, thorough: bool) -> Vec<String> {
         attr_heavy: false,
         salts: rng.chance(1, 5),
         insts: 0,
+        staking: false,
     };
     let salts = ctx.salts;
     setup(rng, &mut ops, &mut ctx, salts);
